@@ -123,7 +123,7 @@ func (p Params[T]) Config(ctx context.Context, t *T, sources ...Source) (*Dials[
 		if w, ok := source.(Watcher); ok {
 			someoneWatching = true
 			computed[i].watching = true
-			wa := watchArgs{c: watcherChan, s: source}
+			wa := watchArgs{c: watcherChan, s: source, idx: i}
 			err = w.Watch(ctx, typeInstance, &wa)
 			if err != nil {
 				return nil, err
@@ -207,7 +207,11 @@ type Decoder interface {
 }
 
 type valueUpdate struct {
-	source    Source
+	source Source
+	// sourceIdx is the position of source in the list passed to Config
+	// (sources are told apart by position: interface values of an
+	// uncomparable dynamic type cannot be compared).
+	sourceIdx int
 	value     reflect.Value
 	installed chan<- error
 }
@@ -215,7 +219,8 @@ type valueUpdate struct {
 func (valueUpdate) isStatusReport() {}
 
 type watcherDone struct {
-	source Source
+	source    Source
+	sourceIdx int
 }
 
 func (watcherDone) isStatusReport() {}
@@ -232,8 +237,9 @@ type watchStatusUpdate interface {
 }
 
 type watchArgs struct {
-	s Source
-	c chan watchStatusUpdate
+	s   Source
+	idx int
+	c   chan watchStatusUpdate
 }
 
 // ReportNewValue reports a new value. Returns an error if the internal
@@ -242,7 +248,7 @@ func (w *watchArgs) ReportNewValue(ctx context.Context, val reflect.Value) error
 	select {
 	case <-ctx.Done():
 		return ctx.Err()
-	case w.c <- &valueUpdate{source: w.s, value: val}:
+	case w.c <- &valueUpdate{source: w.s, sourceIdx: w.idx, value: val}:
 		return nil
 	}
 }
@@ -256,7 +262,7 @@ func (w *watchArgs) ReportNewValue(ctx context.Context, val reflect.Value) error
 // in similar cases.
 func (w *watchArgs) BlockingReportNewValue(ctx context.Context, val reflect.Value) error {
 	installed := make(chan error, 1)
-	vu := valueUpdate{source: w.s, value: val, installed: installed}
+	vu := valueUpdate{source: w.s, sourceIdx: w.idx, value: val, installed: installed}
 	select {
 	case <-ctx.Done():
 		return fmt.Errorf("context expired while attempting to submit new value: %w", ctx.Err())
@@ -280,7 +286,7 @@ func (w *watchArgs) BlockingReportNewValue(ctx context.Context, val reflect.Valu
 func (w *watchArgs) Done(ctx context.Context) {
 	select {
 	case <-ctx.Done():
-	case w.c <- &watcherDone{source: w.s}:
+	case w.c <- &watcherDone{source: w.s, sourceIdx: w.idx}:
 	}
 }
 
@@ -445,8 +451,8 @@ func (d *Dials[T]) updateSourceValue(
 	sourceValues []sourceValue,
 	watchTab *valueUpdate,
 ) *T {
-	for i, sv := range sourceValues {
-		if watchTab.source == sv.source {
+	for i := range sourceValues {
+		if watchTab.sourceIdx == i {
 			sourceValues[i].value = watchTab.value
 			break
 		}
@@ -512,8 +518,8 @@ func (d *Dials[T]) markSourceDone(
 	watchTab *watcherDone,
 ) bool {
 	// Set the calling source's watching bit to false
-	for i, sv := range sourceValues {
-		if watchTab.source == sv.source {
+	for i := range sourceValues {
+		if watchTab.sourceIdx == i {
 			sourceValues[i].watching = false
 			break
 		}
